@@ -27,11 +27,13 @@ class Grid:
     def line(self):
         if self.kind == "raster":
             ov = "ov %d %s" % (len(self.ov), " ".join("%d %d %s" % (r, c, s) for (r, c, s) in self.ov))
-            return "grid raster %d %d %s %s %s %s %d %s" % (
-                self.rows, self.cols, hx(self.dy), hx(self.dx), self.conn, " ".join(self.borders), int(self.cache), ov)
+            ln = (" len=%s,%s" % (hx(self.length[0]), hx(self.length[1]))) if getattr(self, "length", None) else ""
+            return "grid raster %d %d %s %s %s %s %d %s%s" % (
+                self.rows, self.cols, hx(self.dy), hx(self.dx), self.conn, " ".join(self.borders), int(self.cache), ov, ln)
         if self.kind == "profile":
             ov = "ov %d %s" % (len(self.ov), " ".join("%d %s" % (i, s) for (i, s) in self.ov))
-            return "grid profile %d %s %s %d %s" % (self.size, hx(self.dx), " ".join(self.borders), int(self.cache), ov)
+            ln = (" len=%s" % hx(self.length)) if getattr(self, "length", None) else ""
+            return "grid profile %d %s %s %d %s%s" % (self.size, hx(self.dx), " ".join(self.borders), int(self.cache), ov, ln)
         pts = " ".join(hx(x) + " " + hx(y) for (x, y) in self.pts)
         tri = " ".join("%d %d %d" % t for t in self.tris)
         if self.status is None:
@@ -69,8 +71,14 @@ def raster(rng, lo=2, hi=7, conn=None, cache=None, borders=None, ov_prob=0.3, al
             on_loop = (bs[0] == "l" and c in (0, cols - 1)) or (bs[2] == "l" and r in (0, rows - 1))
             if not on_loop and not any((r, c) == (a, b) for a, b, _ in ov):
                 ov.append((r, c, rng.choice("cvg")))
+    length = None
+    if rng.random() < 0.15:
+        # built with from_length: the spacing the library derives is length / (nodes - 1), the same
+        # IEEE division as here
+        length = (rng.choice([1.0, 10.0, 12.0, 7.3]), rng.choice([1.0, 10.0, 12.0, 0.9]))
+        dy, dx = length[0] / (float(rows) - 1), length[1] / (float(cols) - 1)
     return Grid("raster", rows=rows, cols=cols, dy=dy, dx=dx, conn=conn or rng.choice(CONNS), borders=bs,
-                cache=rng.random() < 0.5 if cache is None else cache, ov=ov)
+                cache=rng.random() < 0.5 if cache is None else cache, ov=ov, length=length)
 
 
 def profile(rng, lo=2, hi=24, cache=None, ov_prob=0.3):
@@ -85,8 +93,13 @@ def profile(rng, lo=2, hi=24, cache=None, ov_prob=0.3):
             i = rng.randrange(n)
             if not (bs[0] == "l" and i in (0, n - 1)) and not any(i == a for a, _ in ov):
                 ov.append((i, rng.choice("vvg")))
-    return Grid("profile", size=n, dx=rng.choice([1.0, 0.5, 2.0, 3.7]), borders=bs,
-                cache=rng.random() < 0.5 if cache is None else cache, ov=ov)
+    dx = rng.choice([1.0, 0.5, 2.0, 3.7])
+    length = None
+    if rng.random() < 0.2:
+        length = rng.choice([1.0, 10.0, 12.0, 7.3])
+        dx = length / float(n - 1)
+    return Grid("profile", size=n, dx=dx, borders=bs,
+                cache=rng.random() < 0.5 if cache is None else cache, ov=ov, length=length)
 
 
 def mesh(rng, lo=3, hi=6, holes=True, status="none"):
